@@ -57,6 +57,8 @@ def run(ctx, report):
     data_blobs = [(ci, rel, b) for ci, (case, path, blobs) in enumerate(work) for rel, b in blobs
                   if not rel.endswith("_metadata")]
     decoded = wcases.spec_decode_many(ctx, [b for _, _, b in data_blobs]) if ctx.model_ok else []
+    if ctx.model_ok:
+        wcases.writer_model_stream(ctx, report, work, data_blobs, decoded)
     by_case = {}
     for (ci, rel, b), d in zip(data_blobs, decoded):
         by_case.setdefault(ci, []).append((rel, d))
